@@ -75,6 +75,18 @@ type hideResetCloser struct{ hideReset }
 
 func (h hideResetCloser) Close() error { return h.c.(io.Closer).Close() }
 
+// hideDecReset hides the optional Reset method of a decompressor.
+type hideDecReset struct{ r io.Reader }
+
+func (h hideDecReset) Read(p []byte) (int, error) { return h.r.Read(p) }
+
+// want2 is h as CompressFrame must return it for the compressed frame cf.
+func want2(h ws.Header, cf ws.Frame) ws.Header {
+	h.Rsv |= ws.Rsv(true, false, false)
+	h.Length = int64(len(cf.Payload))
+	return h
+}
+
 func compressorCtor(level int, resettable, closer bool) func(io.Writer) wsflate.Compressor {
 	return func(w io.Writer) wsflate.Compressor {
 		f, err := flate.NewWriter(w, level)
@@ -466,6 +478,46 @@ func subFrames() mon.Sub {
 				}
 				if !bytes.Equal(cf.Payload, keepcf) || !bytes.Equal(df.Payload, keepdf) {
 					c.Fail("frames/result-changed", "the payload returned by CompressFrame / DecompressFrame changed when the helpers were called for another frame", det)
+					return
+				}
+			}
+			// helpers configured by the application: the compressor may or may not offer the optional
+			// Reset / Close methods, the decompressor may or may not be resettable
+			for v := 0; v < 3; v++ {
+				level := []int{-2, -1, 1, 9}[(c.I+v)%4]
+				hl := wsflate.Helper{
+					Compressor: compressorCtor(level, v == 0, v == 1),
+					Decompressor: func(r io.Reader) wsflate.Decompressor {
+						if (c.I+v)%2 == 0 {
+							return hideDecReset{flate.NewReader(r)}
+						}
+						return flate.NewReader(r)
+					},
+				}
+				vdet := map[string]interface{}{"payload_class": class, "len": len(msg), "compressor": []string{"resettable+closer", "closer only", "Write+Flush only"}[v], "level": level}
+				cm, err := hl.Compress(msg)
+				if err != nil {
+					c.Fail("helpers/custom/compress-error", "Helper.Compress with an application-supplied compressor failed: "+err.Error(), vdet)
+					return
+				}
+				back, err := io.ReadAll(flate.NewReader(io.MultiReader(bytes.NewReader(cm), bytes.NewReader(tail), bytes.NewReader([]byte{1, 0, 0, 0xff, 0xff}))))
+				if err != nil || !bytes.Equal(back, msg) {
+					c.Fail("helpers/custom/compress-inflate", fmt.Sprintf("Helper.Compress output + 00 00 ff ff does not inflate to the message (err=%v, %d of %d bytes)", err, len(back), len(msg)), vdet)
+					return
+				}
+				dm, err := hl.Decompress(cm)
+				if err != nil || !bytes.Equal(dm, msg) {
+					c.Fail("helpers/custom/roundtrip", fmt.Sprintf("Helper.Decompress(Helper.Compress(m)) != m (err=%v)", err), vdet)
+					return
+				}
+				cf2, err := hl.CompressFrame(f)
+				if err != nil || cf2.Header != want2(h, cf2) {
+					c.Fail("helpers/custom/compress-frame", fmt.Sprintf("Helper.CompressFrame: err=%v header=%+v", err, cf2.Header), vdet)
+					return
+				}
+				df2, err := hl.DecompressFrame(cf2)
+				if err != nil || df2.Header != h || !bytes.Equal(df2.Payload, msg) {
+					c.Fail("helpers/custom/frame-roundtrip", fmt.Sprintf("Helper.DecompressFrame(Helper.CompressFrame(f)) != f (err=%v)", err), vdet)
 					return
 				}
 			}
